@@ -475,7 +475,7 @@ func (c *sentinelClient) _switchTarget(addr string, isMaster bool) (err error) {
 	}
 
 	if isMaster {
-		if resp[0].string() != "master" {
+		if len(resp) == 0 || resp[0].string() != "master" {
 			target.Close()
 			return errNotMaster
 		}
@@ -488,7 +488,7 @@ func (c *sentinelClient) _switchTarget(addr string, isMaster bool) (err error) {
 			}
 		}
 	} else {
-		if resp[0].string() != "slave" {
+		if len(resp) == 0 || resp[0].string() != "slave" {
 			target.Close()
 			return errNotSlave
 		}
@@ -696,6 +696,9 @@ func (c *sentinelClient) listWatch(cc conn) (master string, replica string, sent
 	if err != nil {
 		return "", "", nil, err
 	}
+	if len(m) < 2 {
+		return "", "", nil, errInvalidMasterAddr
+	}
 	return net.JoinHostPort(m[0], m[1]), r, sentinels, nil
 }
 
@@ -741,3 +744,5 @@ var (
 	errNotMaster = errors.New("the redis role is not master")
 	errNotSlave  = errors.New("the redis role is not slave")
 )
+
+var errInvalidMasterAddr = errors.New("the sentinel replied with an invalid master address")
